@@ -17,6 +17,8 @@ package beaconblock
 
 import (
 	"bufio"
+	"os"
+	"runtime/pprof"
 	"context"
 	"encoding/hex"
 	"errors"
@@ -94,6 +96,12 @@ type seqOut struct {
 }
 
 func gen(o hreg.Opts, w *bufio.Writer, mutants bool) error {
+	if f := os.Getenv("VERIF_CPUPROFILE"); f != "" {
+		if fh, err := os.Create(f); err == nil {
+			pprof.StartCPUProfile(fh) // pprofStart
+			defer pprof.StopCPUProfile()
+		}
+	}
 	ps := plans(o)
 	outs := make([]seqOut, len(ps))
 	var wg sync.WaitGroup
@@ -202,7 +210,7 @@ func genChain(o hreg.Opts, p chainPlan, mutants bool) (out seqOut) {
 	}
 	spec := c.Spec
 	cfgToks := flat.SpecTokens(spec)
-	perBlock := o.Pick(28, 120)
+	perBlock := o.Pick(18, 120)
 	perKind := o.Pick(2, 0)
 	rng := o.Rand()
 	stat("chain_config", p.cfg.ID)
@@ -211,7 +219,7 @@ func genChain(o hreg.Opts, p chainPlan, mutants bool) (out seqOut) {
 	if !mutants {
 		slots *= 3 // valid blocks are cheap (no mutant volume): longer chains for c01
 	}
-	oddKey := 100000
+	oddKey := 2000
 	for i := 0; i < slots; i++ {
 		if rng.Intn(8) == 0 {
 			oddKey += 2
@@ -323,6 +331,9 @@ func genChain(o hreg.Opts, p chainPlan, mutants bool) (out seqOut) {
 				}
 			}
 		} else {
+			// the chain library would heal every mutant it makes (one more real run each); only a sample is used
+			// here, and the sampled re-signed mutants are healed in emitOn
+			c.NoHealMutants = true
 			ms := c.Mutations(step, perKind)
 			own := map[string]bool{}
 			ownMs := extraMutants(c, step, rng)
@@ -345,7 +356,7 @@ func genChain(o hreg.Opts, p chainPlan, mutants bool) (out seqOut) {
 			ms = append(append(ms, ownMs...), bytesMs...)
 			for k := range ms {
 				mu := &ms[k]
-				emitOn(spec, fs, step.PreBlock, mu.Label, mu.Block, engineOf(mu), nil, own[mu.Label])
+				emitOn(spec, fs, step.PreBlock, mu.Label, mu.Block, engineOf(mu), nil, own[mu.Label] || (mu.Resigned && mu.Engine == nil))
 				if mu.Healed {
 					stat("mutants", "healed-by-chain-library")
 				}
